@@ -53,6 +53,8 @@ pub const FIXED: &[Fixed] = &[
         src: "ld r0 far\njmp r0\nfar .fill xFE00\n" },
     Fixed { name: "io", stack: false, origin: 0x3000, bps: [1, 2, 3], input: b"Z", breaks: &[],
         src: "lea r0 msg\nputs\ngetc\nout\nhalt\nmsg .stringz \"hi\"\n" },
+    Fixed { name: "self-loop", stack: true, origin: 0x3000, bps: [1, 2, 0], input: b"", breaks: &[],
+        src: "lea r6 lp\nlp jmp r6\nafter halt\n" },
     Fixed { name: "break-directive", stack: true, origin: 0x3000, bps: [2, 3, 5], input: b"", breaks: &[1, 5],
         src: "and r0 r0 #0\n.break\nadd r0 r0 #2\nlp add r1 r1 #1\nadd r0 r0 #-1\nbrp lp\n.break\ncall f\nhalt\nf ret\n" },
 ];
